@@ -16,7 +16,8 @@
    `marked ops b`     : the history contains set_verified(b)
    `same s a b`       : a and b have the same union-find root in s.          *)
 From Coq Require Import ZArith List Bool Relations.
-From CSS Require Import Equiv.Model Equiv.Ref Equiv.UF Equiv.Inv Equiv.Hist Equiv.Path Equiv.Cov.
+From CSS Require Import Equiv.Model Equiv.Ref Equiv.UF Equiv.Inv Equiv.Hist Equiv.Path Equiv.Cov
+  Equiv.Complete.
 Import ListNotations.
 Open Scope Z_scope.
 
@@ -208,32 +209,82 @@ Proof.
   - intros p ->. eapply find_path_valid; eauto.
 Qed.
 
-(* 5. completeness.
-   PLANNED, NOT PROVED (stays a comment; checked on every generated history by
-   the correspondence against the proved reference Ref.mutual_ref and by the
-   Floyd–Warshall oracle):
+(* 5. completeness: immediately after connect_cycles, labels that are
+      mutually reachable along recorded edges are in the same class, hence
+      `equivalent` answers True; with C06_sound: right after connect_cycles
+      the classes are EXACTLY the strongly connected components of the
+      recorded graph.  Proof (Equiv/Complete*.v): the loop of connect_cycles is
+      a depth-first search of the re-keyed one-way table (vertices = snapshot
+      roots); invariant over (gray path, stack of paths, visited, live
+      union-find): the stack is a LIFO frontier, the classes cut the gray path
+      into contiguous segments, no processed edge points from the class of a
+      later gray vertex into the class of a strictly earlier one without its
+      source being merged into an earlier-or-equal class, and the visited
+      vertices whose class contains no gray vertex ("closed") only point to
+      closed vertices and are equivalent whenever mutually reachable.  When
+      the stack is empty every vertex with an out-edge is closed.
+      C06_complete_partial / C06_complete_partial_edges_kept below are the
+      two earlier partial statements (kept; the second is used in the proof:
+      it gives that every recorded edge is inside a class or in the table). *)
+Theorem C06_complete : forall ops s rs a b,
+  exec order init (ops ++ [Connect]) = Some (s, rs) ->
+  clos_refl_trans Z (recorded (ops ++ [Connect])) a b ->
+  clos_refl_trans Z (recorded (ops ++ [Connect])) b a ->
+  same s a b.
+Proof. intros ops s rs a b. apply (complete_after_connect order order_In). Qed.
 
-     [C06_complete] : forall ops s rs s' a b,
-       exec order init ops = Some (s, rs) -> connect_cycles order s = Some s' ->
-       clos_refl_trans Z (recorded ops) a b -> clos_refl_trans Z (recorded ops) b a ->
-       same s' a b.
+(* the same statement on the step itself: s is any reachable state *)
+Theorem C06_complete_connect_step : forall ops s rs s' a b,
+  exec order init ops = Some (s, rs) ->
+  connect_cycles order s = Some s' ->
+  clos_refl_trans Z (recorded ops) a b -> clos_refl_trans Z (recorded ops) b a ->
+  same s' a b.
+Proof.
+  intros ops s rs s' a b E CC.
+  apply (connect_cycles_complete order order_In _ _ _ s s'
+           (reach_inv order order_In _ _ _ E) (edges_covered order order_In _ _ _ E) CC).
+Qed.
 
-   Proved parts, exported as C06_complete_partial*:
-   (a) labels joined by two-way edges are equivalent at all times, with or
-       without connect_cycles;
-   (b) no recorded edge is ever forgotten: after every history (in particular
-       through the re-keying of get_one_way_vertices and the merges of
-       connect_cycles) each recorded edge a -> b lies inside a class or is
-       represented by an entry k -> e of the one-way table with k in the class
-       of a and e in the class of b.
-   Missing: the depth-first argument that the explicit stack of paths (with
-   lazily discarded entries, over a union-find merged during the traversal)
-   merges every cycle of that table.  Sketch: in each strongly connected
-   component C of the table, with x its first visited node, every other node
-   y of C is, when the last stack entry extending y's path is popped, merged
-   with a proper ancestor of y on its path that lies in C (induction on that
-   finishing time, using soundness to see that the merged ancestor is in C);
-   monotonicity of the partition then gives y ~ x at the end. *)
+Theorem C06_complete_equivalent : forall ops s rs a b s' e,
+  exec order init (ops ++ [Connect]) = Some (s, rs) ->
+  clos_refl_trans Z (recorded (ops ++ [Connect])) a b ->
+  clos_refl_trans Z (recorded (ops ++ [Connect])) b a ->
+  equivalent s a b = Some (s', e) -> e = true.
+Proof.
+  intros ops s rs a b s' e E Rab Rba Q.
+  apply (equivalent_spec _ _ _ _ _ Q). eapply C06_complete; eauto.
+Qed.
+
+(* classes = strongly connected components, right after connect_cycles *)
+Theorem C06_classes_are_sccs : forall ops s rs a b s' e,
+  exec order init (ops ++ [Connect]) = Some (s, rs) ->
+  equivalent s a b = Some (s', e) ->
+  (e = true <->
+   clos_refl_trans Z (recorded (ops ++ [Connect])) a b /\
+   clos_refl_trans Z (recorded (ops ++ [Connect])) b a).
+Proof.
+  intros ops s rs a b s' e E Q. split.
+  - intros He. subst e. exact (C06_sound _ s rs a b s' E Q).
+  - intros (Rab & Rba). exact (C06_complete_equivalent ops s rs a b s' e E Rab Rba Q).
+Qed.
+
+(* ... and still after any number of queries (equivalent / is_verified / db[x]
+   / find_path) issued after connect_cycles: this is the situation in which
+   the correspondence and the engine read the database *)
+Theorem C06_classes_are_sccs_after_queries : forall ops qs s rs a b s' e,
+  Forall is_query qs ->
+  exec order init (ops ++ Connect :: qs) = Some (s, rs) ->
+  equivalent s a b = Some (s', e) ->
+  (e = true <->
+   clos_refl_trans Z (recorded (ops ++ Connect :: qs)) a b /\
+   clos_refl_trans Z (recorded (ops ++ Connect :: qs)) b a).
+Proof.
+  intros ops qs s rs a b s' e F E Q. split.
+  - intros He. subst e. exact (C06_sound _ s rs a b s' E Q).
+  - intros (Rab & Rba). apply (equivalent_spec _ _ _ _ _ Q).
+    exact (complete_after_connect_queries order order_In ops qs s rs a b F E Rab Rba).
+Qed.
+
 Theorem C06_complete_partial : forall ops s rs a b,
   exec order init ops = Some (s, rs) ->
   clos_refl_sym_trans Z (twoway ops) a b -> same s a b.
@@ -269,6 +320,39 @@ Example C06_nonvacuous :
   end.
 Proof. split; [apply isort_In|vm_compute; reflexivity]. Qed.
 
+(* non-vacuity of C06_complete's hypotheses: two one-way cycles sharing a
+   vertex plus a tail; the history ends with connect_cycles; 1 and 5 are
+   mutually reachable, 1 and 6 are not *)
+Example C06_complete_nonvacuous :
+  let ops := [OneWay 1 2; OneWay 2 3; OneWay 3 1; OneWay 3 4; OneWay 4 5; OneWay 5 3;
+              OneWay 5 6] in
+  match exec isort init (ops ++ [Connect]) with
+  | Some (s, _) =>
+      clos_refl_trans Z (recorded (ops ++ [Connect])) 1 5 /\
+      clos_refl_trans Z (recorded (ops ++ [Connect])) 5 1 /\
+      (exists s', equivalent s 1 5 = Some (s', true)) /\
+      (exists s', equivalent s 1 6 = Some (s', false))
+  | None => False
+  end.
+Proof.
+  assert (R : forall x y, In (OneWay x y)
+                [OneWay 1 2; OneWay 2 3; OneWay 3 1; OneWay 3 4; OneWay 4 5; OneWay 5 3;
+                 OneWay 5 6] -> x <> y ->
+              clos_refl_trans Z (recorded
+                ([OneWay 1 2; OneWay 2 3; OneWay 3 1; OneWay 3 4; OneWay 4 5; OneWay 5 3;
+                  OneWay 5 6] ++ [Connect])) x y).
+  { intros x y H N. apply rt_step. split; auto. right. right. apply in_app_iff. auto. }
+  vm_compute exec. repeat split.
+  - eapply rt_trans; [apply (R 1 2); simpl; auto; discriminate|].
+    eapply rt_trans; [apply (R 2 3); simpl; auto; discriminate|].
+    eapply rt_trans; [apply (R 3 4); simpl; auto 10; discriminate|].
+    apply (R 4 5); simpl; auto 10; discriminate.
+  - eapply rt_trans; [apply (R 5 3); simpl; auto 10; discriminate|].
+    apply (R 3 1); simpl; auto 10; discriminate.
+  - eexists. vm_compute. reflexivity.
+  - eexists. vm_compute. reflexivity.
+Qed.
+
 Print Assumptions C06_equivalent_is_same.
 Print Assumptions C06_sound.
 Print Assumptions C06_edges_recorded.
@@ -281,5 +365,10 @@ Print Assumptions C06_uf_merge_exact.
 Print Assumptions C06_connect_cycles_monotone.
 Print Assumptions C06_verified.
 Print Assumptions C06_path.
+Print Assumptions C06_complete.
+Print Assumptions C06_complete_connect_step.
+Print Assumptions C06_complete_equivalent.
+Print Assumptions C06_classes_are_sccs.
+Print Assumptions C06_classes_are_sccs_after_queries.
 Print Assumptions C06_complete_partial.
 Print Assumptions C06_complete_partial_edges_kept.
